@@ -246,10 +246,20 @@ class Mesh:
             _boundaries={
                 **({} if self._boundaries is None else self._boundaries),
                 **{name: self.facets_satisfying(test_or_set, boundaries_only)
-                   if callable(test_or_set) else test_or_set
+                   if callable(test_or_set)
+                   else self._mask_to_indices(test_or_set)
                    for name, test_or_set in boundaries.items()}
             },
         )
+
+    @staticmethod
+    def _mask_to_indices(ix):
+        """A Boolean mask is stored as the indices of its true entries (every
+        reader of the tags takes them as index arrays)."""
+        if (isinstance(ix, ndarray) and ix.dtype == bool
+                and not isinstance(ix, OrientedBoundary)):
+            return np.nonzero(ix)[0].astype(np.int32)
+        return ix
 
     def with_subdomains(self,
                         subdomains: Dict[str, Union[Callable[[ndarray],
@@ -271,7 +281,7 @@ class Mesh:
             _subdomains={
                 **({} if self._subdomains is None else self._subdomains),
                 **{name: (self.elements_satisfying(test)
-                          if callable(test) else test)
+                          if callable(test) else self._mask_to_indices(test))
                    for name, test in subdomains.items()},
             },
         )
@@ -1409,9 +1419,7 @@ class Mesh:
             # Assume string is the label of a boundary in the mesh.
             if ((self.boundaries is not None
                  and facets in self.boundaries)):
-                # (a tag may hold a mask or a list)
-                return self.normalize_facets(
-                    np.asanyarray(self.boundaries[facets]))
+                return self._mask_to_indices(self.boundaries[facets])
             else:
                 raise ValueError("Boundary '{}' not found.".format(facets))
         raise NotImplementedError
@@ -1455,9 +1463,7 @@ class Mesh:
             # Assume string is the label of a subdomain in the mesh.
             if ((self.subdomains is not None
                  and elements in self.subdomains)):
-                # (a tag may hold a mask or a list)
-                return self.normalize_elements(
-                    np.asarray(self.subdomains[elements]))
+                return self._mask_to_indices(self.subdomains[elements])
             else:
                 raise ValueError("Subdomain '{}' not found.".format(elements))
         raise NotImplementedError
